@@ -133,6 +133,16 @@ def gen_history(rng, tier, multi):
         hist['constraints'] = [K.gen_since(rng, all_times, kind)]
         hist['global'] = 0
         if rng.random() < 0.4:
+            # a second file-level constraint whose matcher class DERIVES from the first one's
+            # (other patterns): searchers created later in the history use it - what a matcher
+            # class recognises does not depend on which classes were used before
+            hist['constraints'].append(dict(hist['constraints'][0], matcher='subbrk'))
+            seen_new = False
+            for st in steps:
+                seen_new = seen_new or st['how'] == 'new_searcher'
+                if seen_new:
+                    st['global'] = 1
+        if rng.random() < 0.4:
             defs[-1]['cons'] = [0]
     if multi:
         hist['max_parallel_tasks'] = rng.choice([2, 3])
@@ -143,6 +153,8 @@ def step_scn(hist, step):
     scn = {k: v for k, v in hist.items() if k != 'steps'}
     scn['files'] = step['files']
     scn['regs'] = step['regs']
+    if 'global' in step:
+        scn['global'] = step['global']
     return scn
 
 
